@@ -8,11 +8,13 @@
  *          end() or an element with arbitrary contents (kept in gh_other), inserting/erasing it never changes the witness
  *          entry.  find/emplace/erase/clear have their container meaning on the witness key: find = element iff present,
  *          emplace inserts only if absent and reports that, erase(it) removes exactly the element `it` designates, clear
- *          removes everything.  Iteration visits every element exactly once: the witness (if present) at a
+ *          removes everything, move construction transfers all elements.  Iteration visits every element exactly once: the witness (if present) at a
  *          nondeterministic position among an arbitrary (unbounded) number of other elements.
- * A-PROMISE QXmppPromise<IqResult>::finish(v) completes the task of that promise with v, once per call (ghost: the promise
- *          stored under g_wid counts its completions in gh_completions and keeps the last value in gh_value);
- *          task() is a handle on the same state.  Continuations are not run by this model (see not_covered). */
+ * A-PROMISE QXmppPromise<IqResult>::finish(v) completes the task of that promise with v, once per call (ghost: the promise of
+ *          the witness request -- the g_wgen-th one registered under g_wid -- counts its completions in gh_completions and keeps the
+ *          last value in gh_value);
+ *          task() is a handle on the same state.  Continuations run by finish() are modelled only for cancelAll
+ *          (-DREENTRANT_CONTINUATIONS, model_reenter.h: a continuation may start a new request). */
 #ifndef C07_MODEL_H
 #define C07_MODEL_H
 
@@ -44,23 +46,26 @@ static inline void QXmppIq_errorOptional(optErr *r, const QXmppIq *iq) { r->has 
 
 /* ---- ghost state ------------------------------------------------------------------------------------------------------ */
 qstr g_wid;                 /* the witness request id: arbitrary, never assigned by code or model */
-int gh_completions;         /* completions of the request currently (or last) registered under g_wid */
+int g_wgen;                 /* the witness generation: the witness REQUEST is the g_wgen-th request registered under g_wid (an id may be
+                               reused once its request has left the table); arbitrary, never assigned */
+int gh_gen_ctr;             /* number of requests registered under g_wid so far (emplace succeeded); generations are 1, 2, ... */
+int gh_completions;         /* completions of the witness request (g_wid, g_wgen) */
 IqResult gh_value;          /* value of its last completion */
-bool gh_started;            /* a request with id g_wid has been registered (emplace succeeded) */
+#define STARTED (gh_gen_ctr >= g_wgen)   /* the witness request has been registered */
 int gh_others_completed;    /* completions of promises registered under other keys (observed, no claim) */
 
 qstr gh_cfg_jidBare;        /* the configured own bare JID (QXmppConfiguration::jidBare(), a pure getter) */
 
 /* ---- promise / task ----------------------------------------------------------------------------------------------------- */
-typedef struct qpromise { bool gh_is_w; bool finished; } qpromise;   /* gh_is_w: this is the promise registered under g_wid */
+typedef struct qpromise { bool gh_is_w; int gh_gen; bool finished; } qpromise;   /* gh_is_w: registered under g_wid, as its gh_gen-th request */
 typedef struct qtask { bool finished; bool of_w; IqResult value; } qtask; /* of_w: handle on the witness request's promise */
-static inline void qpromise_ctor(qpromise *p) { p->gh_is_w = false; p->finished = false; }
-bool gh_reentrant;                       /* continuations start new requests while they are being run (finding C07-F1) */
+static inline void qpromise_ctor(qpromise *p) { p->gh_is_w = false; p->gh_gen = 0; p->finished = false; }
+bool gh_reentrant;                       /* continuations start new requests while they are being run (chosen by the harness) */
 struct OutgoingIqManager *gh_iqm_reenter; /* the table such continuations call back into */
 void gh_continuation_runs(void);         /* units/C07/model_reenter.h */
 static inline void qpromise_finish_result(qpromise *p, const IqResult *v) {
   p->finished = true;
-  if (p->gh_is_w) { if (gh_completions < 1000) gh_completions++; gh_value = *v; }
+  if (p->gh_is_w && p->gh_gen == g_wgen) { if (gh_completions < 1000) gh_completions++; gh_value = *v; }
   else if (gh_others_completed < 1000) gh_others_completed++;
 #ifdef REENTRANT_CONTINUATIONS
   gh_continuation_runs();
@@ -82,7 +87,7 @@ iqpair gh_other;                                         /* some element stored 
 /* representation invariant of the view (required and re-established by every contract) */
 #define UMAP_REP(m) ((m).w.first == g_wid && (m).w.second.interface.gh_is_w && !gh_other.second.interface.gh_is_w)
 
-static inline void gh_other_havoc(qstr k) { gh_other.first = k; gh_other.second.jid = nondet_qstr(); gh_other.second.interface.gh_is_w = false; gh_other.second.interface.finished = nondet_bool(); }
+static inline void gh_other_havoc(qstr k) { gh_other.first = k; gh_other.second.jid = nondet_qstr(); gh_other.second.interface.gh_is_w = false; gh_other.second.interface.gh_gen = 0; gh_other.second.interface.finished = nondet_bool(); }
 static inline umap_it umap_end(const umap *m) { return NULL; }
 static inline umap_it umap_find(const umap *m, qstr k) {
   if (k == g_wid) return m->w_present ? (umap_it)&m->w : NULL;
@@ -95,14 +100,15 @@ static inline void umap_emplace(umap_emplace_ret *r, umap *m, qstr k, const IqSt
     r->first = &m->w;
     if (m->w_present) { r->second = false; return; }
     m->w.first = k; m->w.second = *v; m->w.second.interface.gh_is_w = true; m->w_present = true;
-    /* a new request is registered under the witness id: its completion count starts at 0 */
-    gh_started = true; gh_completions = 0;
+    /* one more request is registered under the witness id: it is the next generation */
+    MODEL_LIMIT(gh_gen_ctr < 1000000, "more than 10^6 requests registered under one id");
+    gh_gen_ctr++; m->w.second.interface.gh_gen = gh_gen_ctr;
     r->second = true;
     return;
   }
   r->second = nondet_bool();
   gh_other_havoc(k);
-  if (r->second) { gh_other.second = *v; gh_other.second.interface.gh_is_w = false; }
+  if (r->second) { gh_other.second = *v; gh_other.second.interface.gh_is_w = false; gh_other.second.interface.gh_gen = 0; }
   r->first = &gh_other;
 }
 static inline void umap_erase(umap *m, umap_it it) {
@@ -110,6 +116,10 @@ static inline void umap_erase(umap *m, umap_it it) {
   if (it == &m->w) { MODEL_LIMIT(m->w_present, "erase of a stale witness iterator"); m->w_present = false; }
 }
 static inline void umap_clear(umap *m) { m->w_present = false; }
+/* default construction: empty; move construction: the new map holds exactly the elements the source held, the source is left
+   empty (A-UMAP-MOVE: libstdc++; the standard only says "valid but unspecified" -- the repaired cancelAll clear()s it anyway) */
+static inline void umap_ctor(umap *m) { m->w_present = false; m->w.first = g_wid; m->w.second.jid = 0; m->w.second.interface.gh_is_w = true; m->w.second.interface.gh_gen = 0; m->w.second.interface.finished = false; }
+static inline void umap_move_ctor(umap *d, umap *src) { *d = *src; src->w_present = false; }
 /* iteration (one at a time): gh_it_others elements under other keys and, if gh_it_w, the witness are still to be visited */
 #define UMAP_MAX_SIZE (1L << 62)   /* any number of elements a 64-bit process can hold */
 long gh_it_others; bool gh_it_w; umap *gh_it_map;
